@@ -46,8 +46,12 @@ func genC20(r *Rng, n int, tier string, emit func(Case)) {
 		}
 		data := J{"a": a0, "s": []string{"hello world", "a,b,c", "Abc", "", "x"}[rr.Intn(5)]}
 		// model of lengths so that arguments stay in range; aliases share a cell
-		type cell struct{ n int }
-		arrs := map[string]*cell{"a": {len(a0)}}
+		type cell struct {
+			n   int
+			nul bool // may hold null: sort is not drawn for it (the engine has ONE Nil for null and undefined, JavaScript sorts
+			// null as the text "null" and undefined behind everything - no single expectation exists)
+		}
+		arrs := map[string]*cell{"a": {n: len(a0)}}
 		names := []string{"a"}
 		nv := 0
 		fresh := func(p string) string { nv++; return fmt.Sprintf("%s%d", p, nv) }
@@ -89,33 +93,44 @@ func genC20(r *Rng, n int, tier string, emit func(Case)) {
 				doc = append(doc, nRaw(sVar(x, eCall(eDot(eId(nm), "unshift"), args...))), nText("unshift:"), nBuf(eId(x), true))
 				c.n += cnt
 			case 5:
-				doc = append(doc, nRaw(sExpr(eCall(eDot(eId(nm), "sort")))))
+				if !c.nul {
+					doc = append(doc, nRaw(sExpr(eCall(eDot(eId(nm), "sort")))))
+				}
 			case 6: // splice(start): the removed tail is kept and must not change afterwards
 				kk := rr.Intn(c.n + 1)
 				x := fresh("t")
 				doc = append(doc, nRaw(sVar(x, eCall(eDot(eId(nm), "splice"), eNum(strconv.Itoa(kk))))))
-				arrs[x] = &cell{c.n - kk}
+				arrs[x] = &cell{n: c.n - kk, nul: c.nul}
 				names = append(names, x)
 				c.n = kk
 			case 7: // slice(start): a copy
 				kk := rr.Intn(c.n + 1)
 				x := fresh("c")
 				doc = append(doc, nRaw(sVar(x, eCall(eDot(eId(nm), "slice"), eNum(strconv.Itoa(kk))))))
-				arrs[x] = &cell{c.n - kk}
+				arrs[x] = &cell{n: c.n - kk, nul: c.nul}
 				names = append(names, x)
 			case 8: // alias, or a fresh array literal ([] and [x, y] are new arrays every time they are evaluated)
 				x := fresh("b")
 				if rr.Chance(1, 3) {
 					k := rr.Intn(3)
+					hasNull := false
 					var es []interface{}
 					for j := 0; j < k; j++ {
 						es = append(es, elem())
 					}
 					if rr.Bool() {
 						es = nil // the empty literal
+					} else if rr.Chance(1, 2) {
+						// a null entry keeps its position in the literal: ["x", null, "y"] has length 3 and joins to "x,,y"
+						at := rr.Intn(len(es) + 1)
+						es = append(es[:at:at], append([]interface{}{eNull()}, es[at:]...)...)
+						if rr.Chance(1, 3) {
+							es = append(es, eNull())
+						}
+						hasNull = true
 					}
 					doc = append(doc, nRaw(sVar(x, eArr(es...))))
-					arrs[x] = &cell{len(es)}
+					arrs[x] = &cell{n: len(es), nul: hasNull}
 					names = append(names, x)
 					break
 				}
@@ -161,7 +176,7 @@ func genC20(r *Rng, n int, tier string, emit func(Case)) {
 					x := fresh("p")
 					doc = append(doc, nRaw(sVar(x, eCall(eDot(eId("s"), "split"), eStr([]string{",", " ", "l"}[rr.Intn(3)])))))
 					cnt := 1
-					arrs[x] = &cell{cnt} // at least one part; only push/sort/join are safe without knowing the exact length
+					arrs[x] = &cell{n: cnt} // at least one part; only push/sort/join are safe without knowing the exact length
 					names = append(names, x)
 				case 5:
 					doc = append(doc, nText("up:"), nBuf(eCall(eDot(eId("s"), "toUpperCase")), true))
